@@ -18,11 +18,18 @@ random histories of `convert` / `reset` (every output and the state afterwards; 
                                   the kernel-checked examples show each carried table leaking into the next document:
                                   this persistence is DOCUMENTED behaviour (`Markdown.reset`: "Should be called
                                   manually between calls to `convert`"), not a defect;
+  * `C11X_tables_grow`, `C11X_references_persist`   between resets the tables only grow (a log of writes): what an
+                                  earlier document defined stays until `reset()`;
+  * `C11X_block_tree_no_leak`     what the carried tables can NOT change: the element tree that the block parser builds
+                                  for the document (headings, lists, quotes, code, tables, …) is the same whatever
+                                  references / footnotes / abbreviations the instance carries — the leak enters only
+                                  after the block parser (footnote `div`, reference look-up, footnote references,
+                                  `abbr` elements, placeholder numbers);
   * `C11X_blank_keeps_state`      a blank document is answered before any stage runs and leaves the state;
   * `C11X_untracked_is_ood`, `C11X_tracked_iff_ok`   the model never guesses: after a conversion that did not return
                                   normally (or that is outside the modelled domain) it answers `ood` until `reset()`.
 -/
-import MdVerif.Lemmas.InstanceX
+import MdVerif.Lemmas.InstanceXTree
 
 namespace MdVerif.InstanceX
 open Py Pipeline PipelineX
@@ -152,5 +159,76 @@ example : outcomes {} {} fresh [.convert "a &amp; b".toList, .convert "c &lt; d"
 /-- … and `reset()` empties it -/
 example : (runS {} {} fresh [.convert "a &amp; b".toList, .reset, .convert "c &lt; d".toList]).html =
     ["&lt;".toList] := by decide +kernel
+
+/-! ### what the carried tables change, and what they cannot change -/
+
+/-- **Between resets the tables only grow.**  The log of table writes (references, footnotes, abbreviations) after a
+    conversion — whatever its outcome — extends the log before it: without `reset()` nothing an earlier document
+    defined is forgotten (an abbreviation is removed by a later `*[X]: ''`, which is a write, too). -/
+theorem C11X_tables_grow (x : Exts) (cfg : Cfg) (st : MdSt) (s : Str) : st.log <+: (convertS x cfg st s).2.log :=
+  convertS_log_prefix x cfg st s
+
+/-- … over a whole history without `reset()` -/
+theorem C11X_tables_grow_history (x : Exts) (cfg : Cfg) (st : MdSt) (docs : List Str) :
+    st.log <+: (runS x cfg st (docs.map Ev.convert)).log := by
+  induction docs generalizing st with
+  | nil => exact List.prefix_refl _
+  | cons d docs ih => exact (convertS_log_prefix x cfg st d).trans (ih _)
+
+/-- **A link reference, once defined, stays defined until `reset()`**: every entry of `md.references` before a
+    conversion is an entry afterwards (a later definition of the same label is a later entry, and wins). -/
+theorem C11X_references_persist (x : Exts) (cfg : Cfg) (st : MdSt) (s : Str) (e : Str × (Str × Option Str))
+    (he : e ∈ st.references) : e ∈ (convertS x cfg st s).2.references := by
+  obtain ⟨t, ht⟩ := C11X_tables_grow x cfg st s
+  simp only [MdSt.references, BlockExt.refsOf] at he ⊢
+  rw [← ht, List.filter_append]
+  exact List.mem_append_left _ he
+
+example : (("a".toList, ("/u".toList, none)) : Str × (Str × Option Str)) ∈
+    (runS {} {} fresh [.convert "[a]: /u".toList]).references := by decide +kernel
+
+/-- the element tree that the block parser builds for `src` on an instance in state `st`, before the footnote
+    `div` is added and the inline stage runs: the first stage of `treeS` (`treeS_stages` in
+    `Lemmas/InstanceXLog.lean`: `treeS` is `prepareS`, then `docParseS`, then `lateS`) -/
+def blockTreeS (x : Exts) (cfg : Cfg) (st : MdSt) (src : Str) : Option Node :=
+  match prepareS x cfg st.html src with
+  | .ok (text, _) => (docParseS x cfg st.log text).map (·.1)
+  | _ => none
+
+/-- **The block structure never leaks.**  Two instances with the same HTML stash build the same element tree in the
+    block parser for every document, whatever references, footnotes and abbreviations (and footnote-reference
+    counters) either carries: no block processor decides anything from the tables — `ReferenceProcessor`,
+    `FootnoteBlockProcessor`, `AbbrBlockprocessor` only write (the latter reads the table, to know whether there is
+    something to remove).  All extension flags, all fuels, every document. -/
+theorem C11X_block_tree_no_leak (x : Exts) (cfg : Cfg) (st1 st2 : MdSt) (src : Str) (hh : st1.html = st2.html) :
+    blockTreeS x cfg st1 src = blockTreeS x cfg st2 src := by
+  simp only [blockTreeS, hh]
+  split
+  · exact docParseS_indep x cfg _ _ _
+  · rfl
+
+example : ({ log := [("a".toList, ("/u".toList, none))], fn := ⟨["fnref:1".toList], []⟩ } : MdSt).html = fresh.html :=
+  rfl
+
+/-- … and without `fenced_code` (the only preprocessor that numbers placeholders from the stash) the stash does
+    not matter either: the block parser builds what it builds on a new instance. -/
+theorem C11X_block_tree_fresh (x : Exts) (cfg : Cfg) (st : MdSt) (src : Str) (hf : x.fencedCode = false) :
+    blockTreeS x cfg st src = blockTreeS x cfg fresh src := by
+  simp only [blockTreeS, prepareS_nofence x cfg _ src hf]
+  by_cases hc : (x.admonition && admNonAscii (Normalize.normalize cfg.tab src)) = true
+  · simp only [hc, if_true]
+  · simp only [hc, if_false]
+    exact docParseS_indep x cfg _ _ _
+
+example : ({} : Exts).fencedCode = false ∧ ({ footnotes := true, abbr := true, tables := true } : Exts).fencedCode = false := by
+  decide
+
+/-- with `fenced_code` the stash shows in the block tree: the placeholder paragraph of the fenced block carries the
+    number `html_counter` had (`wzxhzdk:1` instead of `wzxhzdk:0`) — restored to the same `<pre>` at the end -/
+example : (blockTreeS { fencedCode := true } {} { html := ["x".toList] } "```\na\n```".toList).map
+      (fun n => n.children.map (·.text)) = some [some ([Char.ofNat 2] ++ "wzxhzdk:1".toList ++ [Char.ofNat 3])] ∧
+    (blockTreeS { fencedCode := true } {} fresh "```\na\n```".toList).map
+      (fun n => n.children.map (·.text)) = some [some ([Char.ofNat 2] ++ "wzxhzdk:0".toList ++ [Char.ofNat 3])] := by
+  decide +kernel
 
 end MdVerif.InstanceX
